@@ -39,7 +39,8 @@ func srefSchemaJSON(allRoot bool) string {
  "R2":{"columns":{"one":{"type":{"key":` + ref("N1", "strong") + `}}}` + root + `},
  "RW":{"columns":{"w1":{"type":{"key":` + ref("N1", "weak") + `,"min":1,"max":"unlimited"}}}` + root + `},
  "N1":{"columns":{"name":{"type":"string"},"next":{"type":{"key":` + ref("N2", "strong") + `,"min":0,"max":1}}}},
- "N2":{"columns":{"name":{"type":"string"}},"indexes":[["name"]]},
+ "N2":{"columns":{"name":{"type":"string"},"wp":{"type":{"key":` + ref("PR", "weak") + `,"min":0,"max":1}}},"indexes":[["name"]]},
+ "PR":{"columns":{"name":{"type":"string"}}` + root + `},
  "N3":{"columns":{"name":{"type":"string"},"peer":{"type":{"key":` + ref("N3", "strong") + `,"min":0,"max":1}}}}
 }}`
 }
@@ -55,6 +56,7 @@ var (
 	uN1 = []string{uu("a", 1), uu("a", 2), uu("a", 3)}
 	uN2 = []string{uu("b", 1), uu("b", 2)}
 	uN3 = []string{uu("c", 1), uu("c", 2)}
+	uPR = []string{uu("4", 1)}
 )
 
 func short(u string) string {
@@ -175,6 +177,18 @@ func srefAlphabet(level int) []dbx.Txn {
 		opInsert("N2", uN2[0], rm.Row{"name": str("b")}),
 		opInsert("N1", n1[0], rm.Row{"name": str("a"), "next": uset(uN2[0])}),
 		opInsert("R", uR[0], rm.Row{"name": str("chain"), "sset": uset(n1[0])}))
+	// a non-root leaf holding a weak reference to a root row (garbage collection and weak clean-up in one go)
+	add("ins PR p1", opInsert("PR", uPR[0], rm.Row{"name": str("peer")}))
+	add("del PR p1", opDelete("PR", uPR[0]))
+	add("ins chain R r1->a1->b1 with b1.wp->p1",
+		opInsert("PR", uPR[0], rm.Row{"name": str("peer")}),
+		opInsert("N2", uN2[0], rm.Row{"name": str("leaf"), "wp": uset(uPR[0])}),
+		opInsert("N1", n1[0], rm.Row{"name": str("mid"), "next": uset(uN2[0])}),
+		opInsert("R", uR[0], rm.Row{"name": str("top"), "sset": uset(n1[0])}))
+	add("N2 b1.wp:=p1", opUpdate("N2", uN2[0], rm.Row{"wp": uset(uPR[0])}))
+	add("R r1.sset-=a1 + del PR p1", opMutate("R", uR[0], "sset", "delete", uset(n1[0])), opDelete("PR", uPR[0]))
+	add("del PR p1 + R r1.sset:=[]", opDelete("PR", uPR[0]), opUpdate("R", uR[0], rm.Row{"sset": uset()}))
+	add("del R r1 + del PR p1", opDelete("R", uR[0]), opDelete("PR", uPR[0]))
 	add("ins R r1,r2 sharing a1",
 		opInsert("N1", n1[0], rm.Row{"name": str("shared")}),
 		opInsert("R", uR[0], rm.Row{"name": str("one"), "sset": uset(n1[0]), "wset": uset(n1[0]), "smap": rm.MapOf(rm.S("k1"), rm.U(n1[0]))}),
